@@ -656,8 +656,17 @@ func (sm *Sim) doRename(s *Sess) {
 	if from == "INBOX" || to == "INBOX" || from == to {
 		return // renaming INBOX has special semantics that are not modelled
 	}
-	if sm.hasInferiors(from) {
-		return // renaming of inferiors is not modelled
+	// inferior hierarchical names are renamed too (RFC 9051 6.3.6); the outcome is
+	// not specified when one of the new inferior names already exists
+	for n := range sm.boxes {
+		if strings.HasPrefix(n, from+"/") {
+			if _, clash := sm.boxes[to+n[len(from):]]; clash {
+				return
+			}
+		}
+	}
+	if strings.HasPrefix(to, from+"/") {
+		return // renaming a mailbox into its own hierarchy
 	}
 	b := sm.boxes[from]
 	pre, tg, ok := sm.exchange(s, "RENAME "+sm.mboxArg(from)+" "+sm.mboxArg(to))
@@ -677,6 +686,16 @@ func (sm *Sim) doRename(s *Sess) {
 		b.Name = to
 		sm.boxes[to] = b
 		sm.noteUV(b)
+		for _, n := range sm.boxNames() {
+			if strings.HasPrefix(n, from+"/") {
+				c := sm.boxes[n]
+				delete(sm.boxes, n)
+				c.Name = to + n[len(from):]
+				sm.boxes[c.Name] = c
+				sm.noteUV(c)
+				sm.rep.Class("RENAME/inferior-renamed")
+			}
+		}
 	}
 }
 
